@@ -38,6 +38,9 @@ where
     ///
     /// The received task is now tracked and can be used to wait for it to be ready.
     pub async fn track(&self, id: ID) -> Task<T, ID> {
+        #[cfg(p2panda_p2panda_verif)]
+        crate::verif_c14::yield_point("tracker_track_enter").await;
+
         let mut inner = self.0.write().await;
 
         match inner.get(&id) {
@@ -128,6 +131,9 @@ where
 
     /// Await this task until it is ready and we've received the result.
     pub async fn ready(&self) -> T {
+        #[cfg(p2panda_p2panda_verif)]
+        crate::verif_c14::yield_point("task_ready_enter").await;
+
         // Register for the ready signal _before_ looking at the result: a `mark_as_done` which
         // happens between our check and the moment we start waiting would otherwise notify
         // nobody and we would wait forever.
